@@ -305,10 +305,17 @@ def run_harness(binname, cases, workdir, profile="release", timeout=900, shards=
         with open(p, "w") as f:
             for c in parts[i]:
                 f.write(c.text())
-        rc, o, e, dt = sh([harness_path(binname, profile), p] + (extra_args or []), timeout=timeout, cwd=workdir)
+        outp = os.path.join(workdir, "out_%s_%d.txt" % (profile, i))
+        if os.path.exists(outp):
+            os.remove(outp)
+        rc, o, e, dt = sh([harness_path(binname, profile), p] + (extra_args or []), timeout=timeout, cwd=workdir,
+                          env={"VERIF_OUT": outp})
         if rc != 0:
             problems.append("driver %s shard %d exit %d: %s" % (binname, i, rc, e[-500:]))
-        return o
+        try:
+            return open(outp, errors="replace").read()
+        except FileNotFoundError:
+            return o
 
     with ThreadPoolExecutor(max_workers=shards) as ex:
         outs = list(ex.map(one, range(shards)))
